@@ -4,6 +4,7 @@ import (
 	"bytes"
 	"encoding/json"
 	"fmt"
+	"reflect"
 	"regexp"
 	"strings"
 	"time"
@@ -125,4 +126,93 @@ func respellText(text, spell string) (string, error) {
 		return respellNumbers(text, spell), nil
 	}
 	return "", fmt.Errorf("unknown spelling %q", spell)
+}
+
+// cloneInfo returns a deep copy of the effective settings as a library user would have built them in Go: nothing is
+// shared with the parsed configuration, and a list or map without items is written the other way round (nil where
+// the parser left an empty one, empty where it left nil) when flip is set - both mean "none".
+func cloneInfo(info *nfpm.Info, flip bool) *nfpm.Info {
+	out := reflect.New(reflect.TypeOf(*info)).Elem()
+	cloneValue(out, reflect.ValueOf(*info), flip)
+	c := out.Interface().(nfpm.Info)
+	return &c
+}
+
+func cloneValue(dst, src reflect.Value, flip bool) {
+	switch src.Kind() {
+	case reflect.Struct:
+		if src.Type() == timeType {
+			dst.Set(src)
+			return
+		}
+		for i := 0; i < src.NumField(); i++ {
+			if !dst.Field(i).CanSet() {
+				continue
+			}
+			cloneValue(dst.Field(i), src.Field(i), flip)
+		}
+	case reflect.Pointer:
+		if src.IsNil() {
+			return
+		}
+		n := reflect.New(src.Type().Elem())
+		cloneValue(n.Elem(), src.Elem(), flip)
+		dst.Set(n)
+	case reflect.Slice:
+		if src.Len() == 0 {
+			if flip == src.IsNil() {
+				dst.Set(reflect.MakeSlice(src.Type(), 0, 0))
+			}
+			return
+		}
+		n := reflect.MakeSlice(src.Type(), src.Len(), src.Len())
+		for i := 0; i < src.Len(); i++ {
+			cloneValue(n.Index(i), src.Index(i), flip)
+		}
+		dst.Set(n)
+	case reflect.Map:
+		if src.Len() == 0 {
+			if flip == src.IsNil() {
+				dst.Set(reflect.MakeMap(src.Type()))
+			}
+			return
+		}
+		n := reflect.MakeMapWithSize(src.Type(), src.Len())
+		it := src.MapRange()
+		for it.Next() {
+			v := reflect.New(src.Type().Elem()).Elem()
+			cloneValue(v, it.Value(), flip)
+			n.SetMapIndex(it.Key(), v)
+		}
+		dst.Set(n)
+	default:
+		dst.Set(src)
+	}
+}
+
+// packageCloned packages the format from settings built as a library user would (see cloneInfo).
+func packageCloned(text, format string, flip bool) (out []byte, oerr error) {
+	defer func() {
+		if r := recover(); r != nil {
+			oerr = fmt.Errorf("PANIC while packaging settings built in Go (%s): %v", format, r)
+		}
+	}()
+	cfg, err := parseYAML(text, nil)
+	if err != nil {
+		return nil, err
+	}
+	info, err := cfg.Get(format)
+	if err != nil {
+		return nil, err
+	}
+	info = nfpm.WithDefaults(cloneInfo(info, flip))
+	p, err := nfpm.Get(format)
+	if err != nil {
+		return nil, err
+	}
+	var buf bytes.Buffer
+	if err := p.Package(info, &buf); err != nil {
+		return nil, err
+	}
+	return buf.Bytes(), nil
 }
